@@ -115,7 +115,7 @@ def trunc_points(enc):
     return sorted(k for k in ks if 0 <= k < n)
 
 
-def run(ctx, codecs, mods, lengths=None, truncation=False, roundtrip=True):
+def run(ctx, codecs, mods, lengths=None, truncation=False, roundtrip=True, corr_quick=False):
     quick = lengths == 'quick'
     lengths = LENGTHS if lengths is None or quick else lengths
     rt = G.make_resolver(MODULE)
@@ -153,6 +153,9 @@ def run(ctx, codecs, mods, lengths=None, truncation=False, roundtrip=True):
                             codec, k, len(e[1]), tn, n, 'decodes to a value' if r[0] == 'ok' else 'raises ' + r[1]),
                             dict(rep, k=k, kind='boundary-truncation'))
                         break
+        if corr_quick:
+            # the bit-level comparison with the Coq model on the full corpus belongs to C05/C06; here the quick subset
+            rows = [r for r in rows if (r[0], r[3]) in QUICK]
         if codec in mods and rows:
             cm = mods[codec]
             env = to_coq(G.coq_env(MODULE, False))
